@@ -21,10 +21,10 @@ LEVEL_TEXT = ("Machine-checked proof, for every sequence of lookups results, Res
               "the real parseTarget/formatIP on every run.")
 LEVEL_NOTE = ("Trusted: Lean kernel; netip.ParseAddr (its verdict is an input of the model, taken from the real function); the jittered "
               "backoff value is random in the code, so the instant of a retry is read from the implementation and checked against the band "
-              "[0.8,1.2]*min(1s*1.6^k,120s) by the monitor; a lookup takes no virtual time in the harness. Reading: 'a re-resolution request "
+              "[0.8,1.2]*min(1s*1.6^k,120s) by the monitor; a lookup takes a scripted amount of virtual time during which no other op is issued (ResolveNow during a lookup is covered by the theorems only). Reading: 'a re-resolution request "
               "has arrived' counts a ResolveNow issued while the previous wait was still running (the 1-slot channel keeps it): formalised as "
               "token accounting (#lookups that follow a success <= #ResolveNow calls).")
-GAP = "real DNS, lookup latency/timeouts (ResolvingTimeout), SRV/TXT paths, float arithmetic of backoff"
+GAP = "real DNS, ResolvingTimeout, ResolveNow arriving while a lookup is in flight, SRV/TXT paths, float arithmetic of backoff"
 ASSUMPTIONS = ["netip.ParseAddr is correct", "time.After fires exactly at its instant (virtual time under synctest)"]
 RULE = ("watcher: random scripts of lookup results (30% failures), MinResolutionInterval in {1s,30s}, op sequences of rn / sleep with "
         "durations around the interval and the backoff band / close; a case is non-trivial if it has >= 3 lookups incl. a failure or a "
@@ -45,6 +45,8 @@ def gen_watch(rng, n, ln):
         script = "".join("f" if rng.random() < 0.3 else "o" for _ in range(rng.randrange(0, 12)))
         if script:
             ops.append("script " + script)
+        if rng.random() < 0.5:
+            ops.append("dur %d" % rng.choice([1, S, 5 * S, 20 * S, mi - 1, mi, 45 * S]))
         ops.append("build %d" % mi)
         for _ in range(rng.randrange(3, ln)):
             r = rng.random()
@@ -55,6 +57,8 @@ def gen_watch(rng, n, ln):
                 ops.append("sleep %d" % max(1, d))
             elif r < 0.93:
                 ops.append("script " + rng.choice(["f", "ff", "fo", "fffff", "o"]))
+            elif r < 0.945:
+                ops.append("dur %d" % rng.choice([0, 0, S // 2, 3 * S, 29 * S]))
             elif r < 0.96:
                 ops.append("close")
             else:
